@@ -189,6 +189,24 @@ def run(ctx):
         if s.startswith("-"):
             continue
         cases.append((flags, s, []))
+    # every prefix variant in front of a valid body ("never crashes": characters for which isdigit()/int()/float() disagree)
+    for ver, flag in (("2", "2"), ("3", "3"), ("3", ""), ("4", "4")):
+        body = core.render(ver, core.rand_assignment(ver, rng, p_absent=0.8), prefix="")
+        for pe in core.PREFIX_EDITS:
+            if not (pe + body).startswith("-") and (pe + body) != "":
+                cases.append((flag + rng.choice(["", "j", "n"]), pe + body, []))
+    # LONG runs of illegal answers to one question of an interactive session
+    from . import c16
+    for flags in ("2", "3", "4a", "", "4n"):
+        iver, _ = selected(flags)
+        order = c16.learned_order(iver, "a" in flags) or inter.question_order(iver[0], "a" in flags)
+        k = rng.randrange(len(order))
+        ans = []
+        for j, m in enumerate(order):
+            if j == k:
+                ans += [rng.choice(["?", "ZZ", "0", "no"]) for _ in range(ctx.n(1300, 6000))]
+            ans.append(rng.choice(core.VOCAB[iver[0]]["legal"][m]))
+        cases.append((flags, None, ans))
     ctx.count(len(cases))
     ctx.sample({"argv": argv_of(cases[7][0], cases[7][1]), "stdin": cases[7][2]})
     reports = []
